@@ -22,7 +22,7 @@ def run(rep):
     sites = who_constructs(prog, NONCE)
     rep.floor("Nonce construction sites", len(sites), 1)
     for b, bi, s in sites:
-        root = root_body(prog, b)
+      for root in owners_of(prog, b, stop=lambda r: tf is not None and r.id == tf.id):
         if tf is not None and root.id == tf.id:
             rep.ok("nonce-invariant", "site:" + root.desc["name"], sample="constructed in the validating conversion")
         elif is_preserving_copy(prog, root, NONCE):
